@@ -21,6 +21,7 @@ from ..prng import sub
 from .c01 import draw_fmt, fmt_tag
 
 ID = "C18"
+PROBES = ['probe_trouble_executed', 'sites_judged']  # reach probes: counters that must be non-zero in a run (a zero is printed and recorded)
 LEVEL = "exploration"
 BUDGET = {"quick": 1200, "thorough": 50000}
 WALL = {"quick": 300, "thorough": 3400}
